@@ -173,6 +173,22 @@ pub fn run(ctx: &Ctx) -> CheckOutput {
             }));
         }
     }
+    // scale families: a run past 2^16 updates, a window past 2^8, a window past 2^16 (integer widths
+    // of counters and stored lengths), judged against the definition at the boundary steps
+    for kind in VIEWS {
+        let o1 = matches!(kind, Kind::Sma | Kind::Cumulative | Kind::Roc | Kind::BinaryEntropy);
+        let amortised = matches!(kind, Kind::Min | Kind::Max | Kind::HLNormalizer);
+        let k_of = move |n: usize| if kind == Kind::Roc { n + 1 } else { n };
+        for (label, n, len, at) in scale_families(&k_of, quick, o1 || (amortised && !quick), false) {
+            let spec = Spec::un(kind, n, Spec::echo());
+            jobs.push(Box::new(move || {
+                let mut st = Stats::default();
+                let sink = Sink::new();
+                ref_drivers_sparse::<f64>("C02", &spec, &scale_drivers(len, n), &at, &mut st, &sink, &|h, hf, v, out| oracle::<f64>(kind, n, h, hf, v, out));
+                JobOut { stats: st, viols: sink.take(), samples: vec![json!({"explorer":"LONG (sparse oracle)","scalar":"f64","view":spec.name(),"family":label,"steps":len,"judged_steps":at.len(),"drivers":4})] }
+            }));
+        }
+    }
     let o = run_jobs(jobs, ctx.seed);
     CheckOutput {
         stats: o.stats,
